@@ -6,6 +6,7 @@ import (
 	"bufio"
 	"bytes"
 	"crypto/tls"
+	"crypto/x509"
 	"fmt"
 	"io"
 	"net"
@@ -18,6 +19,9 @@ import (
 	"time"
 
 	"github.com/google/martian/v3"
+	"github.com/google/martian/v3/fifo"
+	"github.com/google/martian/v3/h2"
+	"github.com/google/martian/v3/mitm"
 	"github.com/google/martian/v3/trafficshape"
 	"pgregory.net/rapid"
 
@@ -40,6 +44,121 @@ type Conn struct {
 	// trip is a 200, and only a modifier (mutate rewrites such a scheme to http, as
 	// martianurl.Modifier would) makes an origin reachable.
 	Schemes []string `json:"schemes,omitempty"`
+	// Ctx (parallel to Inner) / ConnectCtx: the context calls the request side
+	// makes for the exchange, in order: "skip" (SkipRoundTrip; present exactly when
+	// the behaviour is a skipped round trip), "api" (APIRequest), "log"
+	// (SkipLogging), comma-separated; with Case.Fifo a "|" element marks where the
+	// first modifier of the group stops and the second takes over. After every
+	// call all three flags are read back. Absent: "skip" for a skipping behaviour.
+	Ctx        []string `json:"ctx,omitempty"`
+	ConnectCtx string   `json:"connect_ctx,omitempty"`
+}
+
+func (cn Conn) ctxCalls(i int, beh string) string {
+	s := ""
+	if i < 0 {
+		s = cn.ConnectCtx
+	} else if i < len(cn.Ctx) {
+		s = cn.Ctx[i]
+	}
+	if s == "" && (beh == bSkip || beh == bSkipNoHost) {
+		s = "skip"
+	}
+	return s
+}
+
+// ctxFlagsAfter is the flag set "skip,api,log" (sorted as written here) that
+// holds after the calls in seq.
+func ctxFlagsAfter(seq []string) string {
+	var out []string
+	for _, f := range []string{"skip", "api", "log"} {
+		for _, t := range seq {
+			if t == f {
+				out = append(out, f)
+				break
+			}
+		}
+	}
+	return strings.Join(out, ",")
+}
+
+func ctxFlagsRead(ctx *martian.Context) string {
+	var out []string
+	if ctx.SkippingRoundTrip() {
+		out = append(out, "skip")
+	}
+	if ctx.IsAPIRequest() {
+		out = append(out, "api")
+	}
+	if ctx.SkippingLogging() {
+		out = append(out, "log")
+	}
+	return strings.Join(out, ",")
+}
+
+// ctxApply makes the calls seq[from:to] on ctx, reading the flags back after
+// each (and once before the first), and returns the first disagreement between
+// what was read and the calls made so far.
+func ctxApply(ctx *martian.Context, seq []string, from, to int) string {
+	check := func(n int, when string) string {
+		if want, got := ctxFlagsAfter(seq[:n]), ctxFlagsRead(ctx); want != got {
+			return fmt.Sprintf("%s the context reads {%s}, the calls made so far are {%s}", when, got, want)
+		}
+		return ""
+	}
+	if m := check(from, "before its calls"); m != "" {
+		return m
+	}
+	for i := from; i < to; i++ {
+		switch seq[i] {
+		case "skip":
+			ctx.SkipRoundTrip()
+		case "api":
+			ctx.APIRequest()
+		case "log":
+			ctx.SkipLogging()
+		}
+		if m := check(i+1, "after call "+strings.Join(seq[:i+1], ",")); m != "" {
+			return m
+		}
+	}
+	return ""
+}
+
+// ctxSeq splits the header value: the calls in order and the index at which
+// the second modifier of a group takes over.
+func ctxSeq(h string) (seq []string, split int) {
+	split = -1
+	for _, t := range strings.Split(h, ",") {
+		switch t {
+		case "|":
+			split = len(seq)
+		case "skip", "api", "log":
+			seq = append(seq, t)
+		}
+	}
+	if split < 0 {
+		split = 0
+	}
+	return seq, split
+}
+
+// ctxPre is the first member of the request modifier group of a Fifo case: it
+// makes the calls in front of the "|".
+type ctxPre struct{ p *probe }
+
+func (m ctxPre) ModifyRequest(req *http.Request) error {
+	ctx := martian.NewContext(req)
+	if ctx == nil {
+		return nil
+	}
+	seq, split := ctxSeq(req.Header.Get("X-Verif-Ctx"))
+	if msg := ctxApply(ctx, seq, 0, split); msg != "" {
+		m.p.mu.Lock()
+		m.p.flagErr[req.Header.Get("X-Verif-Id")] = "first modifier of the group: " + msg
+		m.p.mu.Unlock()
+	}
+	return nil
 }
 
 func (cn Conn) scheme(i int) string {
@@ -95,6 +214,44 @@ type Case struct {
 	// PartialOnHijack only the head and three body bytes of a request on which the
 	// RESPONSE modifier hijacks are on the wire when it does.
 	EarlyAnswer bool `json:"early_answer,omitempty"`
+	// Fifo: the proxy's request modifier is a fifo.Group of two: the first member
+	// makes the context calls in front of the "|" of Conn.Ctx, the probe the rest.
+	Fifo bool `json:"fifo,omitempty"`
+	// MITMConf: which mitm.Config the MITM cases run with: "" (no HTTP/2
+	// configuration), "h2-refusing-filter" (SetH2Config with a filter that admits
+	// no host), "h2-no-filter" (SetH2Config with an h2.Config that has no filter:
+	// HTTP/2 prepared, switched on for no host). With none of them is HTTP/2
+	// allowed for any host: every decrypted request is the modifiers'.
+	MITMConf string `json:"mitm_conf,omitempty"`
+	// ALPN: what the client offers in the TLS handshake inside the tunnel: "",
+	// "http/1.1" or "h2,http/1.1".
+	ALPN string `json:"alpn,omitempty"`
+}
+
+var (
+	noFilterOnce sync.Once
+	noFilterConf *mitm.Config
+	noFilterPool *x509.CertPool
+	noFilterErr  error
+)
+
+// mitmNoFilter is a process-wide mitm.Config (authority of its own) on which
+// SetH2Config was called with an h2.Config without AllowedHostsFilter.
+func mitmNoFilter() (*mitm.Config, *x509.CertPool, error) {
+	noFilterOnce.Do(func() {
+		ca, key, err := mitm.NewAuthority("verif mitm (h2 config without filter)", "Verif Org", 24*time.Hour)
+		if err != nil {
+			noFilterErr = err
+			return
+		}
+		noFilterPool = x509.NewCertPool()
+		noFilterPool.AddCert(ca)
+		noFilterConf, noFilterErr = mitm.NewConfig(ca, key)
+		if noFilterErr == nil {
+			noFilterConf.SetH2Config(&h2.Config{RootCAs: netkit.OriginPool()})
+		}
+	})
+	return noFilterConf, noFilterPool, noFilterErr
 }
 
 // hijackToken is what the client sends to a reading hijacker.
@@ -238,6 +395,8 @@ type probe struct {
 	errValue string
 	// hijReads: "" | "conn" | "brw"; connOnly: exchanges whose hijacker must keep
 	// to the net.Conn (see run); T: the liveness bound of this run
+	flagErr  map[string]string // exchange -> first disagreement between context flags and calls made
+	fifo     bool
 	hijReads string
 	connOnly map[string]bool
 	T        time.Duration
@@ -268,6 +427,15 @@ func innerMethod(body string) string {
 }
 
 // innerRequest is the wire form of one inner request.
+// withCtx adds the context-call header of an exchange to its wire form.
+func withCtx(wire, beh, calls string) string {
+	if calls == "" {
+		return wire
+	}
+	mark := "X-Verif-Beh: " + beh + "\r\n"
+	return strings.Replace(wire, mark, mark+"X-Verif-Ctx: "+calls+"\r\n", 1)
+}
+
 func innerRequest(body, target, host, id, beh string) string {
 	head := fmt.Sprintf("%s %s HTTP/1.1\r\nHost: %s\r\nX-Verif-Id: %s\r\nX-Verif-Beh: %s\r\n", innerMethod(body), target, host, id, beh)
 	var b string
@@ -378,6 +546,25 @@ func (p *probe) ModifyRequest(req *http.Request) error {
 		}
 	}
 	p.mu.Unlock()
+	if ctx != nil {
+		// the context calls of this exchange (the part in front of "|" was the
+		// first group member's)
+		h := req.Header.Get("X-Verif-Ctx")
+		if h == "" && (beh == bSkip || beh == bSkipNoHost) {
+			h = "skip"
+		}
+		seq, split := ctxSeq(h)
+		if !p.fifo {
+			split = 0
+		}
+		if msg := ctxApply(ctx, seq, split, len(seq)); msg != "" {
+			p.mu.Lock()
+			if p.flagErr[id] == "" {
+				p.flagErr[id] = "request modifier: " + msg
+			}
+			p.mu.Unlock()
+		}
+	}
 	var err error
 	switch beh {
 	case bMutate:
@@ -387,10 +574,6 @@ func (p *probe) ModifyRequest(req *http.Request) error {
 		}
 	case bReqErr:
 		err = p.errText("reqerr", id)
-	case bSkip, bSkipNoHost:
-		if ctx != nil {
-			ctx.SkipRoundTrip()
-		}
 	case bHijReq:
 		if ctx != nil {
 			marker := "HIJACKED-REQ-" + id + "\n"
@@ -417,6 +600,20 @@ func (p *probe) ModifyResponse(res *http.Response) error {
 		c.ctxID, c.sess = ctx.ID(), ctx.Session()
 		if c.sess != nil {
 			c.sessID = c.sess.ID()
+		}
+	}
+	if ctx != nil {
+		h := req.Header.Get("X-Verif-Ctx")
+		if h == "" && (beh == bSkip || beh == bSkipNoHost) {
+			h = "skip"
+		}
+		seq, _ := ctxSeq(h)
+		if want, got := ctxFlagsAfter(seq), ctxFlagsRead(ctx); want != got {
+			p.mu.Lock()
+			if p.flagErr[id] == "" {
+				p.flagErr[id] = fmt.Sprintf("response modifier: the context reads {%s}, the request side called {%s}", got, want)
+			}
+			p.mu.Unlock()
 		}
 	}
 	p.mu.Lock()
@@ -571,7 +768,7 @@ func runOnce(c Case, T time.Duration) (v kit.Verdict) {
 	}}
 
 	pb := &probe{clock: &clock, reqOf: map[string]*http.Request{}, mitm: map[string]bool{}, multi: c.MultilineErrors, errValue: c.ErrValue,
-		hijReads: c.HijackReads, connOnly: map[string]bool{}, T: T}
+		hijReads: c.HijackReads, connOnly: map[string]bool{}, T: T, flagErr: map[string]string{}, fifo: c.Fifo}
 	needMITM := false
 	for _, cn := range c.Conns {
 		if cn.Mode == "mitm" || cn.Mode == "mitm-plain" {
@@ -618,11 +815,24 @@ func runOnce(c Case, T time.Duration) (v kit.Verdict) {
 	if c.CloneRT {
 		p.SetRoundTripper(cloningRT{p.GetRoundTripper()})
 	}
-	p.SetRequestModifier(pb)
+	if c.Fifo {
+		g := fifo.NewGroup()
+		g.AddRequestModifier(ctxPre{pb})
+		g.AddRequestModifier(pb)
+		p.SetRequestModifier(g)
+	} else {
+		p.SetRequestModifier(pb)
+	}
 	p.SetResponseModifier(pb)
 	var mitmPool = netkit.OriginPool()
 	if needMITM {
 		mc, pool, err := netkit.MITM()
+		switch c.MITMConf {
+		case "h2-refusing-filter":
+			mc, pool, err = netkit.MITMH2()
+		case "h2-no-filter":
+			mc, pool, err = mitmNoFilter()
+		}
 		if err != nil {
 			return kit.Failf("C02/harness/mitm", "%v", err)
 		}
@@ -770,7 +980,7 @@ func runOnce(c Case, T time.Duration) (v kit.Verdict) {
 				}
 				e := expect{id: id, beh: cn.ConnectBeh, conn: ci, wantRes: cn.ConnectBeh != bHijReq, reached: true}
 				expects = append(expects, e)
-				if err := send(fmt.Sprintf("CONNECT %s HTTP/1.1\r\nHost: %s\r\nX-Verif-Id: %s\r\nX-Verif-Beh: %s\r\n\r\n", host, host, id, cn.ConnectBeh)); err != nil {
+				if err := send(withCtx(fmt.Sprintf("CONNECT %s HTTP/1.1\r\nHost: %s\r\nX-Verif-Id: %s\r\nX-Verif-Beh: %s\r\n\r\n", host, host, id, cn.ConnectBeh), cn.ConnectBeh, cn.ctxCalls(-1, cn.ConnectBeh))); err != nil {
 					addf("C02/harness/write", "%v", err)
 					return
 				}
@@ -839,10 +1049,24 @@ func runOnce(c Case, T time.Duration) (v kit.Verdict) {
 				// mitm: upgrade (mitm-plain: cleartext HTTP inside the tunnel - every
 				// request in it is still an exchange of its own)
 				if cn.Mode == "mitm" {
-					tc := tls.Client(raw, &tls.Config{ServerName: "secure.test", RootCAs: mitmPool})
+					tconf := &tls.Config{ServerName: "secure.test", RootCAs: mitmPool}
+					if c.ALPN != "" {
+						tconf.NextProtos = strings.Split(c.ALPN, ",")
+					}
+					tc := tls.Client(raw, tconf)
 					tc.SetDeadline(time.Now().Add(T))
 					if err := tc.Handshake(); err != nil {
 						addf("C02/connect/mitm/handshake", "TLS handshake inside the tunnel failed: %v", err)
+						return
+					}
+					if np := tc.ConnectionState().NegotiatedProtocol; np != "" && np != "http/1.1" {
+						// No configuration of this check allows HTTP/2 for any host: a
+						// session served as HTTP/2 goes to the frame relay, past both modifiers.
+						conf := c.MITMConf
+						if conf == "" {
+							conf = "no-h2-config"
+						}
+						addf("C02/mitm/"+conf+"/h2-negotiated-for-host-not-allowed", "client offered ALPN %q inside the tunnel to secure.test: the proxy negotiated %q although HTTP/2 is allowed for no host (MITM configuration: %s); the decrypted requests of such a session bypass the request and response modifiers", c.ALPN, np, conf)
 						return
 					}
 					conn = tc
@@ -888,6 +1112,7 @@ func runOnce(c Case, T time.Duration) (v kit.Verdict) {
 				if beh == bSkipNoHost {
 					wire = fmt.Sprintf("GET /healthz-%s HTTP/1.0\r\nX-Verif-Id: %s\r\nX-Verif-Beh: %s\r\n\r\n", id, id, beh)
 				}
+				wire = withCtx(wire, beh, cn.ctxCalls(xi, beh))
 				if beh == bHijReq && c.Body != "" && c.PartialOnHijack {
 					wire = wire[:strings.Index(wire, "\r\n\r\n")+4+3]
 					bodyCut = true
@@ -1057,6 +1282,17 @@ func runOnce(c Case, T time.Duration) (v kit.Verdict) {
 			v.Addf("C02/session/"+kind+"/session-shared-across-connections", "connections %d and %d share session %s", oc, e.conn, rq.sessID)
 		}
 		connOfSess[rq.sess] = e.conn
+		// the context's flags are the calls the request side made, no more, no less
+		pb.mu.Lock()
+		fe := pb.flagErr[e.id]
+		pb.mu.Unlock()
+		if fe != "" {
+			idx := -1
+			if !strings.HasSuffix(e.id, "-connect") {
+				fmt.Sscanf(e.id[strings.LastIndex(e.id, "-x")+2:], "%d", &idx)
+			}
+			v.Addf("C02/context/"+kind+"/context-flags-differ-from-calls-made", "exchange %s (%s, context calls %q, fifo group %v): %s", e.id, e.beh, c.Conns[e.conn].ctxCalls(idx, e.beh), c.Fifo, fe)
+		}
 		// a reading hijacker gets everything the client sends after the hijack
 		for _, cl := range cs {
 			if !cl.hijRead || bytes.Contains(cl.hijGot, []byte(hijackToken(e.id))) {
@@ -1236,6 +1472,34 @@ func genCase(t *rapid.T) Case {
 	c.PartialOnHijack = c.Body != "" && rapid.Bool().Draw(t, "partial_on_hijack")
 	c.EarlyAnswer = c.Body != "" && rapid.Bool().Draw(t, "early_answer")
 	c.HijackReads = rapid.SampledFrom([]string{"", "conn", "brw"}).Draw(t, "hijack_reads")
+	c.Fifo = rapid.Bool().Draw(t, "fifo")
+	if family == "mitm" {
+		c.MITMConf = rapid.SampledFrom([]string{"", "h2-refusing-filter", "h2-no-filter"}).Draw(t, "mitm_conf")
+		c.ALPN = rapid.SampledFrom([]string{"", "http/1.1", "h2,http/1.1", "h2,http/1.1"}).Draw(t, "alpn")
+	}
+	// the context calls of one exchange: "skip" iff the behaviour skips, "api"
+	// and "log" drawn, in a drawn order, split at a drawn place between the two
+	// members of the group
+	genCtx := func(beh string) string {
+		var seq []string
+		if beh == bSkip || beh == bSkipNoHost {
+			seq = append(seq, "skip")
+		}
+		if rapid.IntRange(0, 2).Draw(t, "ctx_api") == 0 {
+			seq = append(seq, "api")
+		}
+		if rapid.IntRange(0, 2).Draw(t, "ctx_log") == 0 {
+			seq = append(seq, "log")
+		}
+		if len(seq) > 1 {
+			seq = rapid.Permutation(seq).Draw(t, "ctx_order")
+		}
+		if c.Fifo && len(seq) > 0 {
+			at := rapid.IntRange(0, len(seq)).Draw(t, "ctx_split")
+			seq = append(seq[:at:at], append([]string{"|"}, seq[at:]...)...)
+		}
+		return strings.Join(seq, ",")
+	}
 	// the proxy reaches upstream through a downstream proxy: half of the blind
 	// cases, a quarter of the plain ones
 	if (family == "blind" && rapid.Bool().Draw(t, "via_downstream")) || (family == "plain" && rapid.IntRange(0, 3).Draw(t, "via_downstream") == 0) {
@@ -1260,6 +1524,7 @@ func genCase(t *rapid.T) Case {
 					cn.ConnectBeh, cn.Unreachable = bSkip, false
 				}
 			}
+			cn.ConnectCtx = genCtx(cn.ConnectBeh)
 		}
 		if mode != "blind" {
 			k := rapid.IntRange(1, 5).Draw(t, "inner")
@@ -1269,6 +1534,7 @@ func genCase(t *rapid.T) Case {
 					b = bSkipNoHost
 				}
 				cn.Inner = append(cn.Inner, b)
+				cn.Ctx = append(cn.Ctx, genCtx(b))
 				if mode == "plain" {
 					sch := ""
 					if rapid.IntRange(0, 3).Draw(t, "other_scheme") == 0 {
@@ -1367,6 +1633,42 @@ func classes(c Case) []string {
 	if c.EarlyAnswer {
 		set["origin-answers-before-the-body"] = true
 	}
+	ctxClass := func(calls string) {
+		if calls == "" || calls == "skip" {
+			return
+		}
+		seq, split := ctxSeq(calls)
+		if len(seq) >= 2 {
+			set["context-calls-two-or-more"] = true
+		}
+		if c.Fifo && split > 0 && split < len(seq) {
+			set["context-calls-split-across-group-members"] = true
+		}
+		for i, a := range seq {
+			for _, b := range seq[i+1:] {
+				set["context-call-"+a+"-then-"+b] = true
+			}
+		}
+	}
+	for _, cn := range c.Conns {
+		if cn.Mode != "plain" {
+			ctxClass(cn.ctxCalls(-1, cn.ConnectBeh))
+		}
+		for i, b := range cn.Inner {
+			ctxClass(cn.ctxCalls(i, b))
+		}
+		if cn.Mode == "mitm" {
+			conf := c.MITMConf
+			if conf == "" {
+				conf = "no-h2-config"
+			}
+			set["mitm-conf-"+conf] = true
+			set["client-alpn-"+c.ALPN] = true
+			if strings.HasPrefix(c.ALPN, "h2") {
+				set["client-offers-h2-to-"+conf] = true
+			}
+		}
+	}
 	for _, cn := range c.Conns {
 		if c.Downstream != "" {
 			set["via-downstream-proxy-"+cn.Mode] = true
@@ -1426,11 +1728,12 @@ func classes(c Case) []string {
 
 var propMods = &kit.Prop[Case]{
 	ID: "C02", Name: "modifiers",
-	Rule: "1..3 connections (plain, blind CONNECT to an echo target, CONNECT+MITM with inner requests over TLS), 1..5 exchanges each, behaviour per exchange in {pass, mutate, request error, response error, skip round trip, hijack on request, hijack on response}; hijackers outside TLS optionally go on to read what the client sends next (from the conn or the bufio.ReadWriter they were handed); origins that answer on the head while the request body is still in transit; upstream reached directly or through a downstream proxy (plain requests and blind CONNECTs; what reaches that proxy counts as upstream contact); absolute-form targets with the scheme http, https, HTTP or one no transport carries (ftp, ws, gopher, hxxp); probe modifiers log every call with request/context/session identity; non-trivial = >=2 exchanges on a connection or any behaviour other than pass",
+	Rule: "1..3 connections (plain, blind CONNECT to an echo target, CONNECT+MITM with inner requests over TLS), 1..5 exchanges each, behaviour per exchange in {pass, mutate, request error, response error, skip round trip, hijack on request, hijack on response}; hijackers outside TLS optionally go on to read what the client sends next (from the conn or the bufio.ReadWriter they were handed); origins that answer on the head while the request body is still in transit; upstream reached directly or through a downstream proxy (plain requests and blind CONNECTs; what reaches that proxy counts as upstream contact); per exchange a drawn sequence of context calls (SkipRoundTrip iff the behaviour skips, APIRequest, SkipLogging, any order, optionally split over the two members of a fifo group, flags read back after every call and by the response modifier); MITM configuration without HTTP/2, with an h2.Config whose filter refuses every host, or with one that has no filter, x client ALPN offer none / http/1.1 / h2+http/1.1; absolute-form targets with the scheme http, https, HTTP or one no transport carries (ftp, ws, gopher, hxxp); probe modifiers log every call with request/context/session identity; non-trivial = >=2 exchanges on a connection or any behaviour other than pass",
 	Gen:  genCase, Run: run, NonTrivial: nontrivial, Classes: classes, Journal: true,
 	Gates: map[string]float64{"multi-exchange-connection": 0.4, "mode-mitm": 0.2, "mode-blind": 0.1, "beh-hijack-req": 0.08, "beh-hijack-res": 0.08, "beh-skip": 0.1,
 		"reading-hijacker-on-hijack-res": 0.03, "reading-hijacker-on-hijack-req": 0.03,
-		"target-scheme-not-http": 0.1, "via-downstream-proxy-plain": 0.08, "skipped-connect-with-downstream-proxy": 0.01},
+		"target-scheme-not-http": 0.1, "via-downstream-proxy-plain": 0.08, "skipped-connect-with-downstream-proxy": 0.01,
+		"context-call-skip-then-api": 0.03, "context-call-api-then-skip": 0.03, "context-calls-split-across-group-members": 0.05, "client-offers-h2-to-h2-no-filter": 0.01},
 }
 
 func TestModifiers(t *testing.T) {
